@@ -4,7 +4,8 @@
    function and aborts when it changes; that part is a checked tie, not a theorem.) *)
 From Coq Require Import ZArith List Bool.
 From RM Require Import Gen.C03Sites C03.Model C03.FetchModel C03.ProcessModel.
-From RM Require C05.Model.
+From RM Require C05.Model C05.Proofs.
+From Coq Require Import Lia.
 Import ListNotations.
 Open Scope Z_scope.
 
@@ -51,3 +52,21 @@ Lemma stack_choice_from_source : forall mem t r v,
   if match sm with Some m => region_reads m gen_stack_probe_bytes (C05.Model.r_sp r) | None => false end
   then sm else gen_stack_fallback (memory_at mem (C05.Model.r_sp r)) sm.
 Proof. reflexivity. Qed.
+
+(* ---- round 5: BitFlipDetails::confidence.  The model's index is the source's expression (as the translator reads it),
+   followed by the bounds check of the table access; and that expression, for the table length of the source, stays inside
+   the table for every non-zero u32 count, in both profiles. *)
+Lemma nearby_index_from_source : forall p n, 0 < n ->
+  nearby_index p n =
+  (do i <- gen_nearby_index p n gen_nearby_table_len;
+   if (0 <=? i) && (i <? gen_nearby_table_len) then Ret (Some i) else Panic PANIC_INDEX).
+Proof.
+  intros p n H. unfold nearby_index. replace (0 <? n) with true by (symmetry; apply Z.ltb_lt; exact H). reflexivity.
+Qed.
+Lemma nearby_source_in_bounds : forall p n, 0 < n < two32 ->
+  exists i, gen_nearby_index p n gen_nearby_table_len = Ret i /\ 0 <= i < gen_nearby_table_len.
+Proof.
+  intros p n H. unfold gen_nearby_index, gen_nearby_table_len.
+  rewrite C05.Proofs.chk_sub_ok by (change (2 ^ 64) with 18446744073709551616; unfold two32 in H; lia).
+  eexists. split; [reflexivity|lia].
+Qed.
